@@ -162,6 +162,8 @@ func (db *MemDB) Bucket(name []byte) DBBucket {
 func (db *MemDB) CreateBucket(name []byte) (DBBucket, error) {
 	if db.buckets[string(name)] != nil {
 		return nil, errors.New("bucket already exists")
+	} else if db.puts[string(name)] != nil || db.dels[string(name)] != nil {
+		return nil, errors.New("bucket already exists") // created earlier in this session, not flushed yet
 	}
 	db.puts[string(name)] = make(map[string][]byte)
 	db.dels[string(name)] = make(map[string]struct{})
